@@ -201,6 +201,10 @@ func runGenJobHere(job *genJob) *genRunOut {
 		out.BuildFail = append(out.BuildFail, buildPackages(root, mod, job.Entry))
 		if r < len(job.Edits) {
 			for rel, content := range job.Edits[r] {
+				if content == "\x00delete" {
+					os.Remove(filepath.Join(root, rel))
+					continue
+				}
 				os.WriteFile(filepath.Join(root, rel), []byte(content), 0o644)
 			}
 		}
